@@ -19,6 +19,9 @@ pub struct StCase {
     pub seed: u64,
     /// (frame F, pattern): 0 every simulation of F differs, 1 only the 2nd, 2 from the 3rd on, 3 only the 1st
     pub pert: Option<(i32, u8)>,
+    /// the game keeps its snapshots itself: cell.save(frame, None, Some(checksum))
+    #[serde(default)]
+    pub own_snapshots: bool,
 }
 
 pub struct StOut {
@@ -69,6 +72,7 @@ pub fn run_case(c: &StCase) -> StOut {
     let np = c.players as usize;
     let mut game = Game::new(np, c.window as usize, false);
     game.expect_save0 = c.cd > 0;
+    game.own_snapshots = c.own_snapshots;
     if let Some((pf, pat)) = c.pert {
         game.perturb = Some(Box::new(move |f, idx| {
             if f != pf {
@@ -238,7 +242,7 @@ fn det_case(i: u64, seed: u64, frames: u16) -> StCase {
     k /= 4;
     let sparse = k % 2 == 1;
     k /= 2;
-    StCase { players, window, cd, delay, sparse, frames, seed: mix(seed, k), pert: None }
+    StCase { players, window, cd, delay, sparse, frames, seed: mix(seed, k), pert: None, own_snapshots: seed % 2 == 1 }
 }
 const DET_CONFIGS: u64 = 4 * 10 * 12 * 4 * 2;
 
@@ -250,7 +254,9 @@ fn detect_cases(max_f: i32) -> Vec<StCase> {
                 for delay in [0u8, 3] {
                     for f in 0..=max_f {
                         for pat in 0..4u8 {
-                            v.push(StCase { players, window, cd, delay, sparse: false, frames: (f + cd as i32 + 12) as u16, seed: 7, pert: Some((f, pat)) });
+                            for own_snapshots in [false, true] {
+                                v.push(StCase { players, window, cd, delay, sparse: false, frames: (f + cd as i32 + 12) as u16, seed: 7, pert: Some((f, pat)), own_snapshots });
+                            }
                         }
                     }
                 }
@@ -278,7 +284,7 @@ pub fn run(ctx: &Ctx) -> PropReport {
     rep.part(|| run_enum(
         ctx,
         "detect",
-        "bounded-exhaustive: players 1..=2 x window 3..=10 x check distance 2..window x delay {0,3} x perturbed frame F x pattern {every simulation differs, only the 2nd, from the 3rd on, only the 1st}: if two simulations of F were observed to produce different states then MismatchedChecksum must be reported at a call with current_frame <= F+cd+2 and min(mismatched_frames) == F+1; if none differed, no error; non-trivial = states really differed",
+        "bounded-exhaustive: players 1..=2 x window 3..=10 x check distance 2..window x delay {0,3} x perturbed frame F x pattern {every simulation differs, only the 2nd, from the 3rd on, only the 1st} x {state stored in the cell, game keeps its own snapshots and saves only a checksum}: if two simulations of F were observed to produce different states then MismatchedChecksum must be reported at a call with current_frame <= F+cd+2 and min(mismatched_frames) == F+1; if none differed, no error; non-trivial = states really differed",
         n,
         move |i| cases[i as usize].clone(),
         eval,
@@ -301,7 +307,7 @@ pub fn c02_part(ctx: &Ctx) -> PartReport {
             let r = mix(seed ^ 0xc02, i);
             let window = 1 + (r % 10) as u8;
             let cd = ((r >> 8) % window as u64) as u8;
-            StCase { players: 1 + ((r >> 16) % 4) as u8, window, cd, delay: [0u8, 1, 3, 7][((r >> 24) % 4) as usize], sparse: false, frames: 150, seed: r, pert: None }
+            StCase { players: 1 + ((r >> 16) % 4) as u8, window, cd, delay: [0u8, 1, 3, 7][((r >> 24) % 4) as usize], sparse: false, frames: 150, seed: r, pert: None, own_snapshots: (r >> 32) % 3 == 0 }
         },
         |c| {
             let mut r = eval(c);
